@@ -188,6 +188,16 @@ func enFile(r *hx.Run) string {
 			for rr.Intn(4) == 0 {
 				rs.Comments = append(rs.Comments, hx.Pick(rr, enRuleComments))
 			}
+			if rr.Intn(6) == 0 {
+				// stacks of comments about the same check: expired and live snoozes, disables, in either order
+				chk := hx.Pick(rr, []string{"rule/label", "alerts/annotation", "rule/name", "promql/syntax", "alerts/template", "promql/aggregate"})
+				stack := []string{"# pint snooze 2000-01-01 " + chk, "# pint snooze 2099-01-01 " + chk}
+				if rr.Intn(3) == 0 {
+					stack = append(stack, "# pint snooze 2001-02-03T00:00:00Z "+chk)
+				}
+				rr.Shuffle(len(stack), func(i, j int) { stack[i], stack[j] = stack[j], stack[i] })
+				rs.Comments = append(rs.Comments, stack...)
+			}
 			lines = append(lines, rs.Lines("  ")...)
 		}
 	}
